@@ -406,3 +406,73 @@ func zzC15FetchASM() {
 	}
 	vReach("end")
 }
+
+// Aspect 5: a second authorization round on the same handler (step-up, or re-authorization after the resource moved
+// to another authorization server): every check is made again for the server of THIS round — nothing resolved for an
+// earlier server (client registration, pre-registered credentials) is carried over to a different one.
+func zzC15SecondRound() {
+	env := &zzOAuthEnv{}
+	zzOA = env
+	env.challenges = []oauthex.Challenge{{Scheme: "bearer", Params: map[string]string{"resource_metadata": zzGoodPRM}}}
+	round := 1
+	sameServer := vBool("secondRoundSameServer")
+	asOf := func() string {
+		if round == 2 && !sameServer {
+			return "https://other-as.example"
+		}
+		return zzAS
+	}
+	env.prmDoc = func(u string) (*oauthex.ProtectedResourceMetadata, error) {
+		return &oauthex.ProtectedResourceMetadata{Resource: zzMCP, AuthorizationServers: []string{asOf()}}, nil
+	}
+	env.asmDoc = func(u string) (*oauthex.AuthServerMeta, error) { return zzGoodASM(asOf()), nil }
+	regKind := vChoice("registration", 2) // pre-registered for zzAS, or dynamic registration
+	var tokenURLs []string
+	h := zzHandler(nil, func(ctx context.Context, a *AuthorizationArgs) (*AuthorizationResult, error) {
+		return &AuthorizationResult{Code: "c", State: zzStateTok}, nil
+	}, func(c *AuthorizationCodeHandlerConfig) {
+		if regKind == 0 {
+			c.PreregisteredClient = &oauthex.ClientCredentials{ClientID: "pre", Issuer: zzAS}
+		} else {
+			c.DynamicClientRegistrationConfig = &DynamicClientRegistrationConfig{Metadata: &oauthex.ClientRegistrationMetadata{RedirectURIs: []string{"http://localhost:7777/cb"}}}
+		}
+	})
+	err1 := zzAuthorize(h)
+	vAssert(err1 == nil && env.exchanges == 1, "C15.first-round-authorizes")
+	ts1, _ := h.TokenSource(context.Background())
+	registrations1 := 0
+	for _, u := range env.fetched {
+		if strings.HasSuffix(u, "/register") {
+			registrations1++
+		}
+		if strings.HasSuffix(u, "/token") {
+			tokenURLs = append(tokenURLs, u)
+		}
+	}
+	round = 2
+	env.fetched = nil
+	err2 := zzAuthorize(h)
+	ts2, _ := h.TokenSource(context.Background())
+	if !sameServer && regKind == 0 {
+		// credentials registered for zzAS must not be presented to another issuer, and the old token stays
+		vAssert(err2 != nil, "C15.preregistered-credentials-bound-to-their-issuer")
+		vAssert(env.exchanges == 1 && ts2 == ts1, "C15.no-token-installed-after-failed-check")
+		for _, u := range env.fetched {
+			vAssert(!strings.HasSuffix(u, "/token"), "C15.preregistered-credentials-bound-to-their-issuer")
+		}
+		vReach("moved-and-refused")
+	}
+	if !sameServer && regKind == 1 && err2 == nil {
+		// a dynamically registered client is registered with the server it is used with
+		reg2 := false
+		for _, u := range env.fetched {
+			if u == "https://other-as.example/register" {
+				reg2 = true
+			}
+		}
+		vAssert(reg2, "C15.client-registered-with-the-server-it-is-used-with")
+		vReach("moved-and-reregistered")
+	}
+	zzCheckNetworkLog("C15.every-request-goes-to-https-or-loopback")
+	vReach("end")
+}
